@@ -46,7 +46,11 @@ class Factory:
         self.i += 1
         pos = (0.9 * np.cos(1.3 * i) * (1 + 0.2 * i), 0.8 * np.sin(1.1 * i) * (1 + 0.15 * i), 0.3 * i - 0.5)
         ori = R.from_rotvec((0.1 * i, -0.2, 0.05 * i))
-        k = i % 10
+        k = i % 12
+        if k == 6:   # a partial segment and (next) a hollow full ring: evaluated in one group by two different code paths
+            return magpy.magnet.CylinderSegment(dimension=(0.2, 0.5, 0.4, -30, 200), polarization=(0.1, 0.2 - 0.01 * i, 0.3), position=pos, orientation=ori)
+        if k == 7:
+            return magpy.magnet.CylinderSegment(dimension=(0.25, 0.45, 0.5, 0, 360), polarization=(-0.2, 0.1, 0.2 + 0.01 * i), position=pos, orientation=ori)
         if k == 0:
             return magpy.magnet.Cuboid(dimension=(0.5, 0.4, 0.3), polarization=(0.1 + 0.1 * i, 0.2, -0.3), position=pos, orientation=ori)
         if k == 1:
@@ -56,11 +60,11 @@ class Factory:
                                                position=pos, orientation=ori)
         if k in (4, 5):  # custom sources with different field functions
             return magpy.misc.CustomSource(field_func=_ff_a if (k + i // 10) % 2 == 0 else _ff_b, position=pos, orientation=ori)
-        if k == 6:
-            return magpy.misc.Dipole(moment=(0.3, -0.1 * i, 0.2), position=pos, orientation=ori)
-        if k == 7:
-            return magpy.magnet.Sphere(diameter=0.5, polarization=(0.3, 0.1 * i, 0.2), position=pos, orientation=ori)
         if k == 8:
+            return magpy.misc.Dipole(moment=(0.3, -0.1 * i, 0.2), position=pos, orientation=ori)
+        if k == 9:
+            return magpy.magnet.Sphere(diameter=0.5, polarization=(0.3, 0.1 * i, 0.2), position=pos, orientation=ori)
+        if k == 10:
             return magpy.current.Polyline(vertices=[(0, 0, 0), (0.3, 0.1, 0), (0.3, 0.4, 0.2)], current=0.5 + i, position=pos, orientation=ori)
         return magpy.magnet.Cylinder(dimension=(0.4, 0.5), polarization=(0.2, 0.1, 0.1 * i), position=pos, orientation=ori)
 
